@@ -443,6 +443,70 @@ theorem torn_tail_safe_crc (c : Codec) (hist : List Mutation) (es : List Bytes)
     ErrorOrPrefixState hist (reopenBytes c (segBytes (es.take k) ++ g)) :=
   torn_tail_safe c hist es hes hcodec k g (torn_detected_harmless c g hempty hcrc)
 
+/-! ### A lost entry in the middle of the log -/
+
+theorem decodeAll_reject_mem (c : Codec) : ∀ (ps : List Bytes) (q : Bytes), q ∈ ps → decodePayload c q = none →
+    decodeAll c ps = none := by
+  intro ps
+  induction ps with
+  | nil => intro q hq; simp at hq
+  | cons p ps ih =>
+    intro q hq hr
+    simp only [decodeAll]
+    rcases List.mem_cons.mp hq with rfl | hq'
+    · rw [hr]
+    · rw [ih q hq' hr]; cases decodePayload c p <;> rfl
+
+/-- **C22, entry lost in the middle.** The frames `a` before and `b` after a damaged region are intact (the
+pages holding them reached the disk, the ones in between did not). If the region is cut into frames `zs` of
+which at least one is rejected by `decodeEntry`, `aof.New` fails: the later entries are never replayed on
+top of a hole. -/
+theorem lost_middle_rejected (c : Codec) (a zs b : List Bytes)
+    (ha : ∀ e ∈ a, e.length < 2 ^ 64) (hz : ∀ e ∈ zs, e.length < 2 ^ 64) (hb : ∀ e ∈ b, e.length < 2 ^ 64)
+    (q : Bytes) (hq : q ∈ zs) (hrej : decodePayload c q = none) :
+    reopenBytes c (segBytes a ++ segBytes zs ++ segBytes b) = none := by
+  have hs : segBytes a ++ segBytes zs ++ segBytes b = segBytes (a ++ zs ++ b) := by
+    simp [segBytes, List.flatMap_append]
+  have hl : load (segBytes (a ++ zs ++ b)) = some (a ++ zs ++ b) :=
+    load_segBytes _ (by
+      intro e he
+      simp only [List.mem_append] at he
+      rcases he with (he | he) | he
+      · exact ha e he
+      · exact hz e he
+      · exact hb e he)
+  have hd : decodeAll c (a ++ zs ++ b) = none :=
+    decodeAll_reject_mem c _ q (by simp [hq]) hrej
+  rw [hs]; unfold reopenBytes; rw [hl]; simp only; rw [hd]
+
+theorem segBytes_replicate_nil (n : Nat) : segBytes (List.replicate n []) = List.replicate n 0 := by
+  induction n with
+  | zero => rfl
+  | succ n ih =>
+    have : segBytes (List.replicate (n + 1) []) = frame [] ++ segBytes (List.replicate n []) := by
+      simp [segBytes, List.replicate_succ]
+    rw [this, ih]
+    simp [frame, putUvarint_lt, List.replicate_succ]
+
+/-- **C22, zero-filled hole.** One or more whole entries read back as `n > 0` zero bytes while the entries
+after them are intact: every zero byte is an empty frame, and as long as `decodeEntry` rejects the empty
+payload (version 0 is not V1) the open fails. -/
+theorem zero_hole_rejected (c : Codec) (a b : List Bytes)
+    (ha : ∀ e ∈ a, e.length < 2 ^ 64) (hb : ∀ e ∈ b, e.length < 2 ^ 64)
+    (hempty : decodePayload c [] = none) (n : Nat) (hn : 0 < n) :
+    reopenBytes c (segBytes a ++ List.replicate n 0 ++ segBytes b) = none := by
+  rw [← segBytes_replicate_nil]
+  refine lost_middle_rejected c a (List.replicate n []) b ha ?_ hb [] ?_ hempty
+  · intro e he; rw [List.eq_of_mem_replicate he]; simp
+  · cases n with
+    | zero => omega
+    | succ n => simp [List.replicate_succ]
+
+/-- the executable codec of the correspondence driver (protobuf `LogEntry` parse, CRC-64, version switch)
+rejects the empty payload, whatever the mutation table -/
+theorem tableCodec_rejects_empty (t : List (Bytes × Mutation)) : decodePayload (tableCodec t) [] = none := by
+  simp [decodePayload, tableCodec, parseLogEntry, parseLogEntryAux, decodeEntry, logV1]
+
 /-! ### Non-vacuity -/
 
 /-- a toy codec: payload = version, checksum, then the data; data = key bytes of a Put -/
